@@ -90,7 +90,11 @@ class _Literals(ast.NodeTransformer):
             self.nfloat += 1
             return self._q(node, repr(node.value))
         if isinstance(node.value, complex):
-            raise NotImplementedError("complex literal")
+            if node.value.real != 0:
+                raise NotImplementedError("complex literal with a real part")
+            self.nfloat += 1
+            return ast.copy_location(
+                ast.Call(func=ast.Name(id="__cv_J__", ctx=ast.Load()), args=[ast.Constant(value=repr(node.value.imag))], keywords=[]), node)
         return node
 
     def _conv_operand(self, n):
@@ -180,6 +184,14 @@ class Loader:
 
         importlib.import_module("eminus")
 
+    def imag_unit(self, text):
+        """exact value of the literal `<text>j`"""
+        from fractions import Fraction
+
+        from .algebra import core
+
+        return core.lift(Fraction(text)) * core.I()
+
     # -- import plumbing ------------------------------------------------------------------------
     def import_module(self, name):
         if name in ("eminus.backend",):
@@ -229,6 +241,7 @@ class Loader:
             mod.__path__ = [str(path.parent)]
         mod.__dict__.update(
             __cv_Q__=self.Q,
+            __cv_J__=self.imag_unit,
             __cv_math__=self.math_shim,
             __cv_np__=self.np_shim,
             __cv_import_module__=self.import_module,
